@@ -24,6 +24,7 @@ import (
 	"os"
 	"path/filepath"
 	"reflect"
+	"runtime"
 	"runtime/debug"
 	"sort"
 	"strconv"
@@ -690,11 +691,9 @@ func c11CheckNode(R *vkit.Report, raw []byte, k Kind, famName string, origin map
 		if d.Kind == k {
 			continue
 		}
-		for which, fn := range []func([]byte) (interface{}, error){d.Fast, d.Exported} {
+		{
+			fn := d.Fast
 			name := fmt.Sprintf("_Decode%sFast", d.Kind)
-			if which == 1 {
-				name = fmt.Sprintf("Decode%s", d.Kind)
-			}
 			v, err, pan, site := c11Call(fn, raw)
 			if pan != "" {
 				R.Violation(fmt.Sprintf("C11|panic|%s|%s", name, site), fmt.Sprintf("%s panicked on a %s node (%s): %s", name, k, site, pan), rep(map[string]interface{}{"decoder": name}))
@@ -845,6 +844,9 @@ func c11IxName(fam *c11Family, ix []int) string {
 func TestVerif_C11(t *testing.T) {
 	R := vkit.New("C11")
 	defer R.Finish()
+	// 16 worker processes share the machine: keep each one (and its garbage collector) on two threads
+	runtime.GOMAXPROCS(2)
+	debug.SetGCPercent(400)
 	R.Rule = "case = one typed node value: full product of the per-field alphabets for Epoch, Subset, Entry, Rewards, Block.SlotMeta, Block.Shredding (thorough: DataFrame too); every value within k field deviations of a base value for DataFrame, Transaction, Block; plus every node of fixtures/*.car and every embedded test vector. The value is encoded by the reference encoder (ipld-prime bindnode + dag-cbor) and decoded by _Decode<K>Fast, _Decode<K>Classic, Decode<K>, DecodeAny and the 6 fast decoders of the other kinds; non-trivial = the value differs from the family's base value (or is a corpus node); a value the reference encoder or reference decoder refuses is counted as skipped"
 	thorough := vkit.Thorough()
 	fams := c11Families(thorough)
